@@ -380,3 +380,10 @@ def run(chk):
         if n == 0:
             chk.inconc("R6", "no quote! template containing `where` found in expand.rs (1 confirmed by hand)")
     chk.guard("R6", r6)
+
+    def r7():
+        # the source path of a nested parameterised #[parent] leaf is spliced verbatim into field expressions: it must be a well-formed
+        # `.a.b.c` member chain (convert_parent_child_field, contract decided in C03.R10)
+        from .c03 import parent_path_contract
+        parent_path_contract(chk, "R7")
+    chk.guard("R7", r7)
